@@ -38,7 +38,12 @@ Tag(S) == S.flipped
 \* cause of a flip: the non-reduce-only market order that _on_open_position substitutes for a wrong-side exit row
 FlipTag(o) == IF o.via # "none" /\ ~o.ro /\ o.type = "MARKET" THEN ":after-flip-by-market-replacement" ELSE ":after-flip"
 \* the market order substituted by _on_open_position for a row on the wrong side of the entry (named deviation)
-Replacement(e, S, rows) == e.type = "MARKET" /\ S.inOpen /\ HasQty(rows, e) /\ ~HasRow(rows, e)
+\* - only for a row that really lies on the wrong side of the POSITION's entry price (e.pe, in 1/1000 price units):
+\* a stop-loss at or beyond the entry on the profit side, a take-profit at or beyond it on the loss side
+WrongSideRow(k, pq, r, pe) == IF k = "sl" THEN (pq > 0 /\ r[2] * 1000 >= pe) \/ (pq < 0 /\ r[2] * 1000 <= pe)
+                              ELSE (pq > 0 /\ r[2] * 1000 <= pe) \/ (pq < 0 /\ r[2] * 1000 >= pe)
+Replacement(e, S, rows) == /\ e.type = "MARKET" /\ S.inOpen /\ ~HasRow(rows, e) /\ e.pe >= 0
+                           /\ \E i \in DOMAIN rows : rows[i][1] = e.q /\ WrongSideRow(Kind(e), e.pq, rows[i], e.pe)
 
 SubmitClauses(e, S) ==
   LET k == Kind(e)
